@@ -60,7 +60,7 @@ PROPS = {
                       "tlx/algorithm/multiway_merge_splitting.hpp", "tlx/algorithm/multisequence_partition.hpp",
                       "tlx/algorithm/multiway_merge.hpp", "tlx/algorithm/merge_advance.hpp", "tlx/container/loser_tree.hpp"],
                 stub=["std::thread (scheduler shim over real ::std::thread)"]),
-    "C04": dict(harness="c04_ps5", concurrent=True,
+    "C04": dict(harness="c04_ps5", concurrent=True, watchdog=dict(quick=30, thorough=300),
                 runs=dict(quick=dict(plain=100000, asan=15000, tsan=15000),
                           thorough=dict(plain=2000000, asan=300000, tsan=300000)),
                 expected_hook_probes=["ps5.big_step.flipped", "ps5.big_step.unflipped", "ps5.big_step.multiple_parts", "ps5.big_step.equal_bucket_done",
@@ -272,8 +272,17 @@ class Agg:
             if "ops" in rec and len(self.samples) < 3 and rec.get("ok"):
                 self.samples.append(rec)
             if not rec.get("ok"):
-                rec["flavour"] = flavour
-                self.failures.append(rec)
+                slim = {k: v for k, v in rec.items() if k not in ("choices", "ops", "cfg", "sim")}
+                slim["flavour"] = flavour
+                slim["detail"] = (slim.get("detail") or "")[:1500]
+                self.failures.append(slim)
+
+
+def wd_args(spec, tier):
+    """Wall-clock watchdog per run: runs take micro- to milliseconds (the big default-threshold
+    pS5 runs of the thorough tier: seconds), so a run that takes this long hangs."""
+    w = spec.get("watchdog", {}).get(tier, 30)
+    return ["--watchdog", str(w)]
 
 
 def run_batch(prop, spec, tier, seed, agg):
@@ -310,7 +319,7 @@ def run_batch(prop, spec, tier, seed, agg):
                 continue
             while count > 0:
                 args = ["--runs", str(first), "1", str(count), "--seed", str(seed), "--tier", tier,
-                        "--full-first", "3" if flavour == "plain" else "0"]
+                        "--full-first", "3" if flavour == "plain" else "0"] + wd_args(spec, tier)
                 recs, rc, err = run_worker(harness, flavour, args, cpu)
                 done = 0
                 for r in recs:
@@ -612,7 +621,7 @@ def handle_failures(prop, spec, seed, tier, agg, known):
         # if the flavour at hand does not reproduce, the same run (same seed,
         # hence same workload and decisions) is tried in the asan flavour.
         def gate(fl):
-            args = ["--runs", str(r0["i"]), "1", "1", "--seed", str(seed), "--tier", tier, "--full"]
+            args = ["--runs", str(r0["i"]), "1", "1", "--seed", str(seed), "--tier", tier, "--full"] + wd_args(spec, tier)
             g = []
             for _ in range(2):
                 rr, rc, err = run_worker(harness, fl, args)
@@ -652,7 +661,8 @@ def handle_failures(prop, spec, seed, tier, agg, known):
         run_seed = r0.get("seed") or full.get("seed")
         state = state_of(full, seed=int(run_seed))
         # the explicit state must fail the same way before we shrink it
-        chk = run_replay(harness, flavour, state)
+        wd = spec.get("watchdog", {}).get(tier, 30)
+        chk = run_replay(harness, flavour, state, watchdog=wd)
         if chk.get("ok") or chk.get("cls") != cls:
             log("REPLAY-DIVERGES property=%s flavour=%s run=%d class=%s replay=%s" %
                 (prop, flavour, r0["i"], cls, chk.get("cls")))
@@ -662,8 +672,8 @@ def handle_failures(prop, spec, seed, tier, agg, known):
         state = sh.run()
         log("shrunk %s: ops %d -> %d, non-default decisions %d -> %d (%d re-executions)" %
             (cls, len(full.get("ops", [])), len(state["ops"]), len(full.get("choices", [])), len(state["choices"] or []), sh.tests))
-        final = run_replay(harness, flavour, state)
-        final2 = run_replay(harness, flavour, state)
+        final = run_replay(harness, flavour, state, watchdog=wd)
+        final2 = run_replay(harness, flavour, state, watchdog=wd)
         if final.get("ok") or final.get("cls") != cls or final.get("fp") != final2.get("fp"):
             log("SHRUNK-REPLAY-DIVERGES property=%s class=%s" % (prop, cls))
             fault = True
